@@ -262,6 +262,9 @@ Definition rel_close (a b : Qc) : bool := Qc_leb (Qc_abs (a - b)) (Q2Qc (1 # 100
             y = [math.sin(i / 2.0) + rng.uniform(-0.3, 0.3) for i in range(len(x))]
             cases.append({"x": x, "y": y, "kind": "noisy", "scale": None, "entry": rng.choice(["weaver.smooth", "weaver.to_function", "spline_smooth"]),
                           "s": rng.choice([0.0, None, 0.01, 1.0]), "history": None})
+        for i, c in enumerate(cases):
+            if i % 6 == 0 and not c.get("history"):
+                c["earlier_gappy"] = ["nan", "inf"][(i // 6) % 2]
         return cases
 
     def run(self, c):
@@ -310,6 +313,19 @@ Definition rel_close (a b : Qc) : bool := Qc_leb (Qc_abs (a - b)) (Q2Qc (1 # 100
                     w.scale_y(2.0)
                 del calls[:]
                 return w
+            if c.get("earlier_gappy"):
+                # an earlier request in the same process on another series of the same length with a missing reading (NaN) or an
+                # overflowed one (inf): however that request ends, it leaves nothing behind for this one
+                yg = y[::-1].copy()
+                yg[len(yg) // 2] = float("nan") if c["earlier_gappy"] == "nan" else float("inf")
+                for attempt in (lambda: P.spline_smooth(x, yg, c["s"]), lambda: Weaver(x, yg).smooth(c["s"]), lambda: Weaver(x, yg).to_function()):
+                    try:
+                        with warnings.catch_warnings():
+                            warnings.simplefilter("ignore")
+                            attempt()
+                    except Exception:
+                        pass
+                del calls[:]
             if c["entry"] == "weaver.smooth":
                 w = mk().smooth(c["s"])
                 out = {"x": w.x.tolist(), "y": w.y.tolist()}
